@@ -71,6 +71,13 @@ func genC34(t *rapid.T) c34Case {
 	if rapid.Bool().Draw(t, "leave-then-shutdown") {
 		c.Calls[0] = c34Call{Kind: 1}
 		c.Calls[1] = c34Call{Kind: 2, Trigger: 1, DelayUs: c.Calls[1].DelayUs}
+		// ... and in half of those, every further call is released in the same
+		// window (several calls queueing up behind the Leave that is in progress)
+		if rapid.Bool().Draw(t, "pile-up") {
+			for i := 2; i < len(c.Calls); i++ {
+				c.Calls[i].Trigger, c.Calls[i].After = 1, 0
+			}
+		}
 	}
 	return c
 }
